@@ -552,24 +552,30 @@ type treeCfg struct {
 	input     []byte
 }
 
+var ctxNames = []string{"template", "td", "th", "tr", "tbody", "thead", "tfoot", "caption", "colgroup", "table", "head", "body", "frameset", "html",
+	"select", "title", "textarea", "style", "script", "noscript", "plaintext", "xmp", "iframe", "noembed", "noframes", "foreignObject", "desc", "annotation-xml",
+	"mi", "mo", "mn", "ms", "mtext", "mglyph", "malignmark", "svg", "math", "form", "p", "option", "optgroup", "button", "li", "dd", "dt", "a", "b", "nobr", "font",
+	"applet", "object", "marquee", "input", "br", "img", "col", "frame", "base", "link", "meta", "div", "ruby", "rt", "unknown-tag"}
+
 func genTreeCfg(r *vu.Rng) treeCfg {
 	c := treeCfg{kind: "parse", scripting: r.Chance(2, 3), ctx: "-", ns: "-", ctxAttr: "-", chunk: []int{0, 0, 1, 3, 7}[r.Intn(5)], seed: r.Uint64() >> 1, input: genDoc(r)}
 	if r.Chance(1, 2) {
 		c.kind = "frag"
-		switch r.Intn(12) {
-		case 0:
-			// nil context
-		case 1:
-			c.ns = "svg"
-			c.ctx = []string{"svg", "title", "desc", "foreignObject", "g", "path", "script", "style", "textarea"}[r.Intn(9)]
-		case 2:
-			c.ns = "math"
-			c.ctx = []string{"math", "mi", "mo", "mn", "ms", "mtext", "annotation-xml", "mglyph", "title"}[r.Intn(9)]
-			if c.ctx == "annotation-xml" {
+		// The context's name and namespace are drawn independently: every name that has its
+		// own case in resetInsertionMode / the insertion modes, in the HTML, SVG and MathML namespace.
+		if !r.Chance(1, 12) { // else: nil context
+			switch r.Intn(3) {
+			case 0:
+				c.ctx = ctxNames[r.Intn(len(ctxNames))]
+			case 1:
+				c.ctx = foreignNames[r.Intn(len(foreignNames))]
+			default:
+				c.ctx = pickTag(r)
+			}
+			c.ns = []string{"-", "-", "svg", "math"}[r.Intn(4)]
+			if c.ctx == "annotation-xml" || r.Chance(1, 20) {
 				c.ctxAttr = []string{"-", "enc-html", "enc-x"}[r.Intn(3)]
 			}
-		default:
-			c.ctx = pickTag(r)
 		}
 		c.formAnc = r.Chance(1, 6)
 	}
